@@ -123,6 +123,19 @@ def quant_genexp(eng, gen, st, universal):
             return z3.And(parts) if universal else z3.Or(parts)
         if isinstance(src, BagV):
             raise Unsupported("quantifier over an image collection")
+        if eng.concrete and not isinstance(src, SetV):
+            seq = eng.as_seq(src, s2)
+            n_c = z3.simplify(seq.n)
+            if not z3.is_int_value(n_c):
+                raise Unsupported("concrete mode: quantifier over a symbolic range")
+            parts = []
+            for ii in range(n_c.as_long()):
+                s3 = State(dict(s2.env), list(s2.pc))
+                eng.assign(g.target, seq.at(z3.IntVal(ii)), s3)
+                parts.append(after_bind(s3))
+            if not parts:
+                return z3.BoolVal(universal)
+            return z3.And(parts) if universal else z3.Or(parts)
         s3 = State(dict(s2.env), list(s2.pc))
         if isinstance(src, SetV):
             xs = [fresh("qx") for _ in range(src.arity)]
@@ -347,6 +360,13 @@ def b_set(eng, st, a, kw):
 
 def _quant(eng, st, a, universal):
     src = a[0]
+    if eng.concrete and not isinstance(src, (BagV, TupV)):
+        seq = eng.as_seq(src, st)
+        n_c = z3.simplify(seq.n)
+        if not z3.is_int_value(n_c):
+            raise Unsupported("concrete mode: quantifier over a symbolic range")
+        ts = [eng.truth(seq.at(z3.IntVal(i)), st) for i in range(n_c.as_long())]
+        return BoolV((z3.And(ts) if universal else z3.Or(ts)) if ts else z3.BoolVal(universal))
     if isinstance(src, BagV):
         xs = [fresh("bx") for _ in range(src.nvars)]
         dv = IntV(xs[0]) if src.nvars == 1 else TupV([IntV(x) for x in xs])
@@ -378,6 +398,14 @@ def b_sum(eng, st, a, kw):
             tot = tot + Z(x)
         return IntV(tot)
     seq = eng.as_seq(a[0], st)
+    if eng.concrete:
+        n_c = z3.simplify(seq.n)
+        if not z3.is_int_value(n_c):
+            raise Unsupported("concrete mode: sum over a symbolic range")
+        tot = Z(a[1]) if len(a) > 1 else z3.IntVal(0)
+        for ii in range(n_c.as_long()):
+            tot = tot + Z(seq.at(z3.IntVal(ii)))
+        return IntV(tot)
     # sum of a filtered "1 for ..." comprehension is its length
     flt = seq.meta.get("filter")
     probe = seq.at(fresh("s"))
@@ -401,6 +429,20 @@ def b_minmax(is_max):
                 out = z3.If(t > out, t, out) if is_max else z3.If(t < out, t, out)
             return IntV(out)
         seq = eng.as_seq(a[0], st)
+        if eng.concrete:
+            n_c = z3.simplify(seq.n)
+            if not z3.is_int_value(n_c):
+                raise Unsupported("concrete mode: min/max over a symbolic range")
+            vals = [Z(seq.at(z3.IntVal(ii))) for ii in range(n_c.as_long())]
+            if not vals:
+                if "default" in kw:
+                    return IntV(Z(kw["default"]))
+                from .engine import _PyRaise
+                raise _PyRaise("ValueError")
+            out = vals[0]
+            for t in vals[1:]:
+                out = z3.If(t > out, t, out) if is_max else z3.If(t < out, t, out)
+            return IntV(out)
         m = fresh("ext")
         j = fresh("xj")
         i = fresh("xi")
